@@ -12,7 +12,7 @@
 
   Contents
   * `C07_no_lost_wakeup` — MAIN: for well-formed programs (`WF`: every wait/waitFor is followed by
-    `process`, DisableQueueNotify scopes are balanced; `processIf` calls ARE allowed) and the
+    `process`, DisableQueueNotify scopes are balanced; `processIf` and `processUntil` calls ARE allowed) and the
     repaired destructor, no reachable state has all threads finished-or-parked, somebody parked,
     events pending and notification enabled.  Proved from the inductive invariant `J`
     (`Conc/WaitDefs.lean`, `Conc/WaitInv.lean`); `C07_obligation` is the invariant's key clause and
@@ -32,6 +32,12 @@
     `procPbReadNc`, `procPbNotify` after `procPutBack`) makes `processIf` the notifier of the events it
     puts back: the same schedules now wake the waiter, which drains the queue.
     `C07_processIf_no_schedule_loses`: by the main theorem no schedule of the two programs does.
+  * `C07_processUntil_putback_notifies`, `C07_processUntil_no_schedule_loses` — the same window for
+    `processUntil` (model modes 4/5; it shares `procPutBack`, `procPbReadNc`, `procPbNotify` with
+    `processIf`, as the source shares the code after the loop): the events it stops at are invisible to
+    `emptyQueue()` between the swap and the put-back, and it notifies on behalf of the notifier that
+    skipped.  `WF` puts no restriction on `processUntil`; `J_step` covers it (the stop step changes no
+    shared variable; the put-back step is the `processIf` one).
   * `C07_returns_only_enabled`, `C07_read3_observed`, `C07_timeout_only`, `C07_timeout_origin` —
     what a returning `wait` / `waitFor` has observed.
   * `C07_counter`, `C07_disabled` — `nc` counts the live DisableQueueNotify objects; while one is
@@ -74,7 +80,7 @@ theorem C07_obligation {progs : List (List Call)} (hwf : WF progs) {s : State} (
 
 /-- The window: while a waiter is between its predicate evaluation and its parking it holds
     `queueListMutex`, so neither an enqueue's splice, nor (repaired) a DisableQueueNotify
-    destructor's decrement, nor the put-back splice of a `processIf` can execute.  (Needs no
+    destructor's decrement, nor the put-back splice of a `processIf` / `processUntil` can execute.  (Needs no
     hypothesis on the programs beyond `WF`.) -/
 theorem C07_window {progs : List (List Call)} (hwf : WF progs) {s : State} (hr : Reach progs s)
     {u : Tid} {thu : Thread} (hu : getT s u = some thu) (hpcu : holdsQm thu.pc = true)
@@ -135,7 +141,7 @@ theorem C07_no_lost_wakeup_events (progs : List (List Call)) (hwf : WF progs) (s
       (C07_no_lost_wakeup progs hwf s hr hall hex)
 
 /-- The same, for the executable predicate `lostWakeup` used by the counter-examples and the test
-    harness: no reachable state of well-formed programs (with or without `processIf`) is a terminal
+    harness: no reachable state of well-formed programs (with or without `processIf` / `processUntil`) is a terminal
     state with a lost wake-up. -/
 theorem C07_lostWakeup_false (progs : List (List Call)) (hwf : WF progs) (s : State)
     (hr : Reach progs s) : lostWakeup s = false := by
@@ -243,6 +249,40 @@ theorem C07_processIf_no_schedule_loses (sched : List (Tid × Nat)) :
     lostWakeup (exec (init progsPIe) sched) = false ∧ lostWakeup (exec (init progsPId) sched) = false :=
   ⟨C07_lostWakeup_false progsPIe (by decide) _ ⟨sched, rfl⟩,
    C07_lostWakeup_false progsPId (by decide) _ ⟨sched, rfl⟩⟩
+
+/-- The D11 window with `processUntil` (stop at the first even id: it stops at event 0 at once and puts
+    it back).  Thread 0 parks on the empty queue; thread 1 splices event 0 in; thread 2 swaps the list
+    out and stops at event 0; thread 1 reads "list empty"; thread 2 puts event 0 back, reads `nc = 0`
+    and notifies — waking thread 0 —, and decrements `queueEmptyCounter`; thread 1 reads `ec = 0` and
+    does not notify. -/
+def progsPUe : List (List Call) := [[.wait, .process], [.enqueue], [.processUntil false]]
+
+def schedPUe : List (Tid × Nat) :=
+  List.replicate 5 (0,1) ++ [(1,0),(1,0)] ++ List.replicate 5 (2,0) ++ [(1,0)] ++
+  List.replicate 4 (2,0) ++ [(1,0)]
+
+/-- `processUntil` notifies after its put-back: right before the put-back the waiter is parked, the
+    enqueuer has read the list as empty and thread 2 is at `procPutBack [0]`; at the end of the schedule
+    the enqueuer has skipped its notification but the waiter has been woken by thread 2; eleven more
+    steps of thread 0 return from `wait` and drain the queue. -/
+theorem C07_processUntil_putback_notifies :
+    WF progsPUe ∧
+    (let s := exec (init progsPUe true) (schedPUe.take 13)
+     s.threads.map (·.pc) = [.parked false, .enqReadEc, .procPutBack [0] false] ∧ s.queue = []) ∧
+    (let s := exec (init progsPUe true) schedPUe
+     s.threads.map (·.pc) = [.woken false false, .idle, .idle] ∧
+     s.threads.map finished = [false, true, true] ∧
+     s.queue = [0] ∧ s.nc = 0 ∧ s.ec = 0 ∧ lostWakeup s = false ∧ checkJ s = true) ∧
+    (let s := exec (init progsPUe true) (schedPUe ++ List.replicate 11 (0,1))
+     s.threads.map finished = [true, true, true] ∧ s.queue = [] ∧
+     s.consumed = [(0, .dispatched, 0)] ∧
+     s.threads.map (·.rets) = [[.unit, .bool true], [.unit], [.bool false]]) := by
+  decide
+
+/-- … and by the main theorem NO schedule of this program ends in a lost wake-up. -/
+theorem C07_processUntil_no_schedule_loses (sched : List (Tid × Nat)) :
+    lostWakeup (exec (init progsPUe) sched) = false :=
+  C07_lostWakeup_false progsPUe (by decide) _ ⟨sched, rfl⟩
 
 /-! ## 3. What a returning `wait` / `waitFor` has observed
 
